@@ -187,6 +187,28 @@ pub fn run(cfg: Cfg, out: &mut Out) {
         parse_checked(&mut core, out, &t, false, "multiline");
     }
 
+    // literals that a second-stage parser (wildcard, regex, network) validates or rejects:
+    // escapes, stars, raw-string delimiters and multi-byte characters in every order — the
+    // error spans of these stages are computed from decoded lengths and offsets
+    for _ in 0..cfg.share(if cfg.quick() { 3_000 } else { 300_000 }) {
+        const PIECES: [&str; 20] = [
+            "*", "**", "\\x2a", "\\\\", "\\*", "\\q", "a", "\u{e9}", "\u{20ac}", "\u{65e5}", "?", "[", "(", "\\052", "\\xff", "{1,", "+", "\u{1f600}", ")", "\\",
+        ];
+        let k = 1 + rng.below(6) as usize;
+        let body: String = (0..k).map(|_| *rng.pick(&PIECES)).collect();
+        let lit = match rng.below(5) {
+            0 | 1 => format!("\"{body}\""),
+            2 => format!("r\"{body}\""),
+            3 => format!("r#\"{body}\"#"),
+            _ => format!("r##\"{body}\"##"),
+        };
+        let op = *rng.pick(&["wildcard", "strict wildcard", "wildcard", "matches", "~", "contains", "==", "in"]);
+        let field = *rng.pick(&["y", "http.host", "oy", "ay[0]"]);
+        let t = if op == "in" { format!("{field} in {{{lit}}}") } else { format!("{field} {op} {lit}") };
+        let t = if rng.chance(1, 4) { format!("b and\n{t}") } else { t };
+        parse_checked(&mut core, out, &t, false, "literal-stage");
+    }
+
     // 4. very long chains / very deep nestings in a child process with a small stack
     if cfg.shard == 0 {
         let sizes: &[usize] = if cfg.quick() { &[1_000, 100_000] } else { &[1_000, 100_000, 1_000_000] };
